@@ -235,6 +235,14 @@ func genField(rng *rand.Rand, sb *strings.Builder, class string, s, f int, gener
 			sb.WriteString(" // " + zhComments[rng.Intn(len(zhComments))])
 		case 1:
 			sb.WriteString(" // see the tag docs")
+		case 2:
+			if len(existing) == 0 && class != "G0" {
+				// an annotation on a field that has NO tag literal (hand-written structs next to generated ones): there is
+				// no literal to merge into, the field stays as it is — with the pairs alone, with a remark after them,
+				// in a block comment
+				kv := []string{`valid:"required"`, `valid:"to=1~50" form:"size"`, `json:"n,omitempty"`}[rng.Intn(3)]
+				sb.WriteString([]string{" // @tag " + kv, " // 每页 @tag " + kv + " 每页条数", " /* @tag " + kv + " */", " // @tag " + kv + " // and `more`", " /* 备注 */ // @tag " + kv}[rng.Intn(5)])
+			}
 		}
 		sb.WriteString("\n")
 		return 0
